@@ -299,3 +299,83 @@ _run_prev = run
 def run(unit, em):
     _run_prev(unit, em)
     run_engine_pairs(unit, em)
+
+
+# ---- clause `head`: nothing about a whole block is decided from the head of its circular state list
+def run_head(unit, em):
+    from vfacts import stmt_exits
+    for fn in unit.functions:
+        if fn.body is None or 'explicit_lts_sim' not in fn.file:
+            continue
+        vt = var_table(fn)
+        for d, v in vt.items():
+            if v['kind'] != 'local' or not is_node(v['decl'].get('init')):
+                continue
+            i = strip(v['decl']['init'])
+            if i is None or i['k'] != 'MemberExpr' or i.get('n') != 'states_' or 'StateListElem' not in unit.ty(i):
+                continue
+            par = v['node'].get('_p')
+            if par is None or par['k'] != 'CompoundStmt':
+                continue
+            sibs = par.get('ch', [])
+            try:
+                k0 = next(k for k, s in enumerate(sibs) if s is v['node'])
+            except StopIteration:
+                continue
+            loop_at = None
+            for k in range(k0 + 1, len(sibs)):
+                if sibs[k]['k'] in ('DoStmt', 'WhileStmt', 'ForStmt') and any(x['k'] == 'DeclRefExpr' and x.get('d') == d for x in walk(sibs[k].get('c') or {})):
+                    loop_at = k
+                    break
+            if loop_at is None:
+                continue
+            txt = unit.text(v['node'], 50)
+            bad = None
+            for s in sibs[k0 + 1:loop_at]:
+                for n in walk(s, lambdas=False):
+                    if n['k'] == 'IfStmt' and is_node(n.get('c')) and any(x['k'] == 'DeclRefExpr' and x.get('d') == d for x in walk(n['c'])) and \
+                       (stmt_exits(n.get('th')) or (n.get('el') is not None and stmt_exits(n.get('el')))):
+                        bad = n
+            if bad is None:
+                em.ok(v['node'], txt, 'the traversal of the circular state list starts right at the head: every state of the block is looked at', 'head')
+            else:
+                em.violation(bad, unit.text(bad['c'], 60), 'the whole block is skipped on a test of the *head* of its circular state list (`%s`): the head is an arbitrary member of the block, the other states of the block are never looked at (states below the output size that share a block with a higher-numbered state lose all their pairs)' % (v['decl'].get('n') or 'elem'), 'head')
+
+
+_run_prev2 = run
+
+
+def run(unit, em):
+    _run_prev2(unit, em)
+    run_head(unit, em)
+
+
+# ---- clause `chain`: a remove list is consumed as a whole chain, never through the vector of its head node
+def run_chain(unit, em):
+    for fn in unit.functions:
+        if fn.body is None or 'explicit_lts_sim' not in fn.file:
+            continue
+        for c in fn.walk():
+            if c['k'] != 'CXXMemberCallExpr' or method_name(c) != 'subList':
+                continue
+            # what consumes the result?
+            p = c.get('_p')
+            while p is not None and p['k'] in ('ImplicitCastExpr', 'ParenExpr', 'UnaryOperator', 'MaterializeTemporaryExpr', 'CXXBindTemporaryExpr'):
+                p = p.get('_p')
+            txt = unit.text(c, 50)
+            if p is not None and p['k'] in ('CallExpr', 'CXXMemberCallExpr') and method_name(p) in ('reclaim',):
+                em.ok(c, txt, 'the head vector goes back to its allocator', 'chain')
+            elif p is not None and p['k'] == 'CXXMemberCallExpr' and method_name(p) in ('size', 'empty') :
+                em.ok(c, txt, 'only its size is looked at', 'chain')
+            elif p is not None and p['k'] == 'ReturnStmt':
+                em.ok(c, txt, 'accessor', 'chain')
+            else:
+                em.violation(c, txt, 'the content of a remove list is taken from subList(), the vector of its *head node* only: a list that was shared by a split and then appended to is a chain of several nodes, the states queued before the split are silently left out (they are never removed from the relation)', 'chain')
+
+
+_run_prev3 = run
+
+
+def run(unit, em):
+    _run_prev3(unit, em)
+    run_chain(unit, em)
